@@ -42,11 +42,14 @@
 (*      delivered; a reader error is block-granular: at offset r it may    *)
 (*      pre-empt only documents that end less than two blocks before r;    *)
 (*  (3) abandoning the iteration disposes the loader, which never reads    *)
-(*      again.                                                             *)
+(*      again, and RELEASES it: nothing refers to the loader any more once *)
+(*      the generator is gone (the cycle loader -> parser.state -> bound   *)
+(*      method -> loader is broken by dispose()).                          *)
 (* Variant selects the code as it is ("code") or a known-bad design used   *)
 (* as negative control: "eager" (tokenise everything first), "depeek"      *)
 (* (the parser looks past '...' before it ends the document), "greedy"     *)
-(* (the reader keeps refilling while an undecoded tail remains).           *)
+(* (the reader keeps refilling while an undecoded tail remains), "shadow"  *)
+(* (dispose() is called but does not clear the parser's self-references).  *)
 (***************************************************************************)
 EXTENDS Naturals, Sequences, FiniteSets, TLC
 HL == INSTANCE Lazy
@@ -76,9 +79,10 @@ VARIABLES mode,
           gen, cur, dsize, gsize, ends, bad,      \* environment grammar: where we are in the stream, document bookkeeping
           pst, ev, pwant,       \* parser state, current event, an event is wanted
           api, delivered, raised, disposed,
+          selfref,              \* the loader is reachable from itself: parser.state / parser.states hold its bound methods
           hok                   \* H monitor
 vars == <<mode, closed, a, t, eofd, need, rst, bol, queue, key, sdone, swant, gen, cur, dsize, gsize, ends,
-          bad, pst, ev, pwant, api, delivered, raised, disposed, hok>>
+          bad, pst, ev, pwant, api, delivered, raised, disposed, selfref, hok>>
 rdr == <<closed, a, t, eofd, need, rst>>
 scn == <<bol, queue, key, sdone, swant>>
 env == <<gen, cur, dsize, gsize, bad>>
@@ -107,7 +111,7 @@ DetEnc ==                                   \* while not eof and len(raw_buffer)
      THEN /\ \E k \in 0 .. Block : IF k = 0 THEN closed' = TRUE /\ UNCHANGED t ELSE t' = t + k /\ UNCHANGED closed
           /\ UNCHANGED <<rst, need>>
      ELSE rst' = "run" /\ need' = 1 /\ UNCHANGED <<closed, t>>          \* self.update(1)
-  /\ UNCHANGED <<mode, a, eofd, scn, env, ends, prs, top>>
+  /\ UNCHANGED <<mode, selfref, a, eofd, scn, env, ends, prs, top>>
 
 \* one iteration of "while len(buffer) < length": update_raw() unless eof, decode (final = eof), NUL at eof
 Refill ==
@@ -128,7 +132,7 @@ Refill ==
              \/ /\ got > 0                                          \* the batch contains an offending unit: ReaderError
                 /\ \E r \in a .. a + got - 1 : raised' = [kind |-> "reader", doc |-> 0, at |-> r]   \* r: offset from p
                 /\ t' = got /\ UNCHANGED <<a, eofd, need>>
-  /\ UNCHANGED <<mode, rst, scn, env, ends, prs, api, delivered, disposed, hok>>
+  /\ UNCHANGED <<mode, selfref, rst, scn, env, ends, prs, api, delivered, disposed, hok>>
 
 \* peek / prefix / forward ask for n units: "if pointer+n >= len(buffer): update(n)"
 Ask(n) == need' = n /\ UNCHANGED <<closed, a, t, eofd, rst>>
@@ -153,11 +157,11 @@ Moved(k, n, nl) == IF k.on THEN [k EXCEPT !.dist = Min(@ + n, MaxKey + 1), !.sam
 ScanStale ==                                \* stale_possible_simple_keys
   /\ ScanActive /\ KeyStale
   /\ key' = NoKey
-  /\ UNCHANGED <<mode, rdr, bol, queue, sdone, swant, env, ends, prs, top>>
+  /\ UNCHANGED <<mode, selfref, rdr, bol, queue, sdone, swant, env, ends, prs, top>>
 ScanReady ==                                \* need_more_tokens() is false: back to whoever asked
   /\ ScanActive /\ ~KeyStale /\ ~NeedMore
   /\ swant' = FALSE
-  /\ UNCHANGED <<mode, rdr, bol, queue, key, sdone, env, ends, prs, top>>
+  /\ UNCHANGED <<mode, selfref, rdr, bol, queue, key, sdone, env, ends, prs, top>>
 
 \* the environment decides what the unit at p is; W / NL are consumed by scan_to_next_token (forward needs 2 units)
 CanGrow == IF gen = "afterDE" THEN gsize < MaxGap ELSE dsize < MaxSize
@@ -167,7 +171,7 @@ Skip(u) ==
      ELSE /\ ~AtEnd /\ CanGrow /\ gen # "end"
           /\ Advance(1) /\ key' = Moved(key, 1, u = "NL") /\ bol' = (u = "NL")
           /\ IF gen = "afterDE" THEN gsize' = gsize + 1 /\ UNCHANGED dsize ELSE dsize' = dsize + 1 /\ UNCHANGED gsize
-  /\ UNCHANGED <<mode, queue, sdone, swant, gen, cur, bad, prs, top>>
+  /\ UNCHANGED <<mode, selfref, queue, sdone, swant, gen, cur, bad, prs, top>>
 
 Push(tk) == queue' = Append(queue, tk)
 FetchEnd ==                                 \* NUL: STREAM-END; an open document ends here
@@ -177,7 +181,7 @@ FetchEnd ==                                 \* NUL: STREAM-END; an open document
           /\ Push(Tok("SE", gen = "body")) /\ sdone' = TRUE /\ key' = NoKey
           /\ ends' = IF gen = "body" THEN Append(ends, 0) ELSE ends
           /\ gen' = "end" /\ UNCHANGED rdr
-  /\ UNCHANGED <<mode, bol, swant, cur, dsize, gsize, bad, prs, top>>
+  /\ UNCHANGED <<mode, selfref, bol, swant, cur, dsize, gsize, bad, prs, top>>
 
 FetchMarker(m) ==                           \* '---' or '...' at the beginning of a line (TermLen units + 1 of look-ahead)
   /\ ScanActive /\ ~KeyStale /\ NeedMore /\ bol /\ m \in {"DS", "DE"}
@@ -191,7 +195,7 @@ FetchMarker(m) ==                           \* '---' or '...' at the beginning o
                      IN  IF gen = "body" THEN Append(moved, TermLen) ELSE moved
           /\ IF m = "DE" THEN gen' = "afterDE" /\ gsize' = 0 /\ UNCHANGED <<cur, dsize>>
              ELSE gen' = "body" /\ cur' = cur + 1 /\ dsize' = 0 /\ UNCHANGED gsize
-  /\ UNCHANGED <<mode, sdone, swant, bad, prs, top>>
+  /\ UNCHANGED <<mode, selfref, sdone, swant, bad, prs, top>>
 
 \* content tokens: K may start a simple key, T cannot, V is ':', B is lexically malformed,
 \* P / C / X are tokens the parser / composer / constructor will reject
@@ -217,7 +221,7 @@ FetchTok(u) ==
                                                       \o SubSeq(queue, key.idx, Len(queue)) \o <<Tok("VALUE", FALSE)>>
                                                  ELSE Append(queue, Tok("VALUE", FALSE))
                        [] OTHER   -> key' = NoKey /\ Push(Tok(u, FALSE))
-  /\ UNCHANGED <<mode, sdone, swant, gsize, prs, api, delivered, disposed, hok>>
+  /\ UNCHANGED <<mode, selfref, sdone, swant, gsize, prs, api, delivered, disposed, hok>>
 
 (***************************************************************************)
 (* Parser (one token of look-ahead)                                        *)
@@ -237,7 +241,7 @@ ParseDocStart0 ==                          \* parse_implicit_document_start
      ELSE /\ Keep /\ UNCHANGED raised
           /\ IF HeadTok.k \notin {"DS", "DE", "SE"} THEN pst' = "content" /\ ev' = [k |-> "DocStart", t |-> "-"]
              ELSE pst' = "dstart" /\ UNCHANGED ev
-  /\ UNCHANGED <<mode, rdr, env, ends, pwant, api, delivered, disposed, hok>>
+  /\ UNCHANGED <<mode, selfref, rdr, env, ends, pwant, api, delivered, disposed, hok>>
 
 ParseDocStart ==                           \* parse_document_start: skip '...', STREAM-END, or an explicit document
   /\ ParseActive /\ pst = "dstart"
@@ -246,6 +250,8 @@ ParseDocStart ==                           \* parse_document_start: skip '...', 
             [] HeadTok.k = "SE" -> Take /\ pst' = "done" /\ ev' = [k |-> "StreamEnd", t |-> "-"] /\ UNCHANGED raised
             [] HeadTok.k = "DS" -> Take /\ pst' = "content" /\ ev' = [k |-> "DocStart", t |-> "-"] /\ UNCHANGED raised
             [] OTHER -> Keep /\ raised' = [kind |-> "parser", doc |-> delivered + 1, at |-> 0] /\ UNCHANGED <<pst, ev>>
+  \* "self.state = None" at STREAM-END (states and marks are empty there): the parser lets go of the loader by itself
+  /\ selfref' = (selfref /\ ~(Peeked /\ HeadTok.k = "SE"))
   /\ UNCHANGED <<mode, rdr, env, ends, pwant, api, delivered, disposed, hok>>
 
 ParseContent ==                            \* the node events of the document, one per token here
@@ -254,7 +260,7 @@ ParseContent ==                            \* the node events of the document, o
      ELSE IF HeadTok.k \in {"DS", "DE", "SE"} THEN Keep /\ pst' = "dend" /\ UNCHANGED <<ev, raised>>
      ELSE IF HeadTok.k = "P" THEN Keep /\ raised' = [kind |-> "parser", doc |-> delivered + 1, at |-> 0] /\ UNCHANGED <<pst, ev>>
      ELSE Take /\ ev' = [k |-> "Node", t |-> HeadTok.k] /\ UNCHANGED <<pst, raised>>
-  /\ UNCHANGED <<mode, rdr, env, ends, pwant, api, delivered, disposed, hok>>
+  /\ UNCHANGED <<mode, selfref, rdr, env, ends, pwant, api, delivered, disposed, hok>>
 
 ParseDocEnd ==                             \* parse_document_end: an explicit '...' belongs to the document
   /\ ParseActive /\ pst \in {"dend", "dend2"}
@@ -264,7 +270,7 @@ ParseDocEnd ==                             \* parse_document_end: an explicit '.
                         ELSE pst' = "dstart" /\ ev' = [k |-> "DocEnd", t |-> "-"])
      ELSE IF pst = "dend2" /\ HeadTok.k = "DE" THEN Take /\ UNCHANGED <<pst, ev>>
      ELSE Keep /\ pst' = "dstart" /\ ev' = [k |-> "DocEnd", t |-> "-"]
-  /\ UNCHANGED <<mode, rdr, env, ends, pwant, raised, api, delivered, disposed, hok>>
+  /\ UNCHANGED <<mode, selfref, rdr, env, ends, pwant, raised, api, delivered, disposed, hok>>
 
 (***************************************************************************)
 (* API generators and H bookkeeping                                        *)
@@ -303,14 +309,23 @@ ApiStep ==
                           THEN raised' = [kind |-> "constructor", doc |-> delivered + 1, at |-> 0] /\ UNCHANGED <<api, delivered, hok, ends>>
                           ELSE IF ev.k = "DocEnd" THEN Deliver /\ UNCHANGED raised
                           ELSE UNCHANGED <<api, delivered, raised, hok, ends>>
-  /\ UNCHANGED <<mode, rdr, env, disposed>>
+  /\ UNCHANGED <<mode, selfref, rdr, env, disposed>>
 
 ApiNext ==                                 \* the consumer asks for the next item ...
   /\ Running /\ api = "yielded" /\ api' = "check"
-  /\ UNCHANGED <<mode, rdr, scn, env, ends, prs, delivered, raised, disposed, hok>>
-Abandon ==                                 \* ... or closes the generator: finally: loader.dispose()
+  /\ UNCHANGED <<mode, selfref, rdr, scn, env, ends, prs, delivered, raised, disposed, hok>>
+\* loader.dispose() is Parser.dispose: "self.states = []; self.state = None" - it breaks the reference cycle
+\* loader -> state -> bound method -> loader, so that dropping the generator frees the loader, its stream and buffers by
+\* reference counting.  Negative control "shadow": dispose() is called but resolves to a method that leaves the
+\* parser's state alone (another mixin defines dispose() earlier in the MRO).
+Dispose == /\ disposed' = TRUE /\ selfref' = (Variant = "shadow" /\ selfref)
+Abandon ==                                 \* ... or closes the generator (or it is exhausted): finally: loader.dispose()
   /\ Running /\ api \in {"yielded", "finished"}
-  /\ disposed' = TRUE
+  /\ Dispose
+  /\ UNCHANGED <<mode, rdr, scn, env, ends, prs, api, delivered, raised, hok>>
+Unwind ==                                  \* an error leaves the generator through the same finally clause
+  /\ raised # NoErr /\ ~disposed
+  /\ Dispose
   /\ UNCHANGED <<mode, rdr, scn, env, ends, prs, api, delivered, raised, hok>>
 
 Init ==
@@ -320,6 +335,7 @@ Init ==
   /\ gen = "start" /\ cur = 0 /\ dsize = 0 /\ gsize = 0 /\ ends = <<>> /\ bad = FALSE
   /\ pst = "dstart0" /\ ev = NoEv /\ pwant = FALSE
   /\ api = "check" /\ delivered = 0 /\ raised = NoErr /\ disposed = FALSE /\ hok = TRUE
+  /\ selfref = TRUE                       \* Parser.__init__: self.state = self.parse_stream_start
 
 Next ==
   \/ DetEnc \/ Refill \/ ScanStale \/ ScanReady \/ FetchEnd
@@ -327,7 +343,7 @@ Next ==
   \/ \E m \in {"DS", "DE"} : FetchMarker(m)
   \/ \E u \in {"K", "T", "V", "B", "P", "C", "X"} : FetchTok(u)
   \/ ParseDocStart0 \/ ParseDocStart \/ ParseContent \/ ParseDocEnd
-  \/ ApiStep \/ ApiNext \/ Abandon
+  \/ ApiStep \/ ApiNext \/ Abandon \/ Unwind
 Spec == Init /\ [][Next]_vars
 
 (***************************************************************************)
@@ -345,6 +361,15 @@ H_ReaderOrder == (raised.kind = "reader") =>
                     /\ HL!MayPreempt(raised.at, Block)
 \* (3) a disposed loader never reads again: no reader action is enabled once it is disposed
 H_Dispose == disposed => ~(ENABLED DetEnc \/ ENABLED Refill)
+\* (3) released: once an abandoned (or exhausted) generator is gone nothing refers to the loader any more - it is freed
+\* without the cycle collector.  What may still refer to it: the generator frame, the parser's state (bound methods), and
+\* after a ConstructorError the two-phase generators left in constructor.state_generators (their frames hold the loader;
+\* dispose() does not touch them - the statement speaks of abandoning, not of failing, so this is modelled, not judged).
+Referrers == (IF disposed THEN {} ELSE {"generator frame"}) \cup (IF selfref THEN {"parser.state"} ELSE {})
+             \cup (IF raised.kind = "constructor" THEN {"constructor.state_generators"} ELSE {})
+H_Release == (disposed /\ raised = NoErr) => HL!NothingLeft(Referrers)
+\* beyond the statement (drift probe of the harness): the same holds after every error but a constructor error
+L_ReleaseOnError == (disposed /\ raised.kind \notin {"-", "constructor"}) => HL!NothingLeft(Referrers)
 TypeOK == /\ (a <= 2 * Block + MaxTail + TermLen + 1) \/ Variant = "greedy"
           /\ t <= 2 * Block + 1 /\ cur <= MaxDocs
           /\ (Len(queue) <= 4) \/ Variant = "eager"
